@@ -189,8 +189,10 @@ def rich_world(seed, n_chroms=6, genes_per_chrom=3, groups=3, multimappers=True,
     for k in range(unmapped):
         from vlib.world import Read
         w.reads.append(Read("unm%03d" % k, None, -1, [], "ACGTACGTACGTACGT", flag=4, mapq=0, truth={"unmapped": True}))
+    group_of = {}
     for i, r in enumerate(w.reads):
-        r.tags = [("RG", "g%d" % (i % groups))]
+        # all alignment records of one read carry the read's group (the tag is a property of the read, not of the alignment)
+        r.tags = [("RG", group_of.setdefault(r.name, "g%d" % (i % groups)))]
         r.file_idx = i % 2
         if eqx_every and i % eqx_every == 3 and not (r.flag & 4):
             w.to_eqx(r)          # =/X operations instead of M (minimap2 --eqx, pbmm2)
@@ -779,12 +781,12 @@ def add_zoo(w, parts=ZOO_ALL):
     rng = w.rng
     placed = set()
     if "same_coords" in parts and len(w.chrom_order) >= 2:
-        common = max(g.end for g in w.genes) + 2500
+        common = max(g.end for g in w.genes) + 6000       # no neighbour close enough to be joined into the region on any sequence
         if common + 12000 < min(w.chrom_len(c) for c in w.chrom_order):
             x, _ = w.make_gene("X1", w.chrom_order[0], common, rng.choice("+-"), n_exons=5, n_iso=2, hidden_kinds=("nnic_skip",))
             _reads_for(w, x)
             for ci, chrom in enumerate(w.chrom_order[1:]):
-                if ci % 3 == 1:
+                if ci % 3 == 2:
                     # same exon coordinates, OPPOSITE strand (splice sites canonical for that strand): nothing learnt about an intron
                     # (strand, canonical sites, annotated or not) on one chromosome is true on another one
                     other = "-" if x.strand == "+" else "+"
@@ -799,7 +801,7 @@ def add_zoo(w, parts=ZOO_ALL):
                     w.genes.append(c)
                 else:
                     c = clone_gene(w, x, "X%d" % (ci + 2), chrom, x.start)
-                    if c and ci % 3 == 0 and len(c.transcripts) > 1:
+                    if c and ci % 3 == 1 and len(c.transcripts) > 1:
                         # same sequence and coordinates, but the second isoform is NOT annotated on this chromosome
                         for t in c.transcripts[1:]:
                             t.annotated = False
@@ -807,6 +809,29 @@ def add_zoo(w, parts=ZOO_ALL):
                         c.transcripts = c.transcripts[:1]
                 if c:
                     _reads_for(w, c)
+            # multi-mapped reads ALL of whose alignments are uninformative (unspliced, inside the first intron) and lie at the same
+            # coordinates on different sequences: the choice among them must not depend on which process handled which sequence
+            intr = x.transcripts[0].introns[0]
+            if intr[1] - intr[0] > 260:
+                for k in range(3):
+                    name = w.new_read_name("mmsame")
+                    a, b = intr[0] + 40 + 7 * k, intr[0] + 40 + 7 * k + 150
+                    # on the first sequence and on those that carry an exact copy of the locus (equal regions: an exact tie)
+                    order = [w.chrom_order[0]] + [c_ for ci_, c_ in enumerate(w.chrom_order[1:]) if ci_ % 3 == 0 and c_ in w.chroms and
+                                                  any(g_.id.startswith("X") and g_.chrom == c_ for g_ in w.genes)]
+                    if k % 2:
+                        order = order[1:] + order[:1]       # the primary alignment is not always on the first sequence
+                    for j, chrom in enumerate(order):
+                        w.make_read(chrom, [(a, b)], name=name, flag=0 if j == 0 else 256, mapq=60,
+                                    truth={"multimap": True, "class": "mm-uninformative-same-coordinates"})
+                # the longest of these sequences (handled first by a single process) carries extra reads in front of the locus: counters
+                # that run per process reach the locus with a higher value there than on the other sequences when each has its own process
+                tied = [w.chrom_order[0]] + [c_ for ci_, c_ in enumerate(w.chrom_order[1:]) if ci_ % 3 == 0]
+                longest = max(tied, key=w.chrom_len)
+                first = min([g_ for g_ in w.genes if g_.chrom == longest and g_.transcripts and g_.end < common], key=lambda g_: g_.start, default=None)
+                if first is not None:
+                    for _ in range(40):
+                        w.read_from_transcript(first.transcripts[0], mode="full", jitter=0, polya=True, flag=0 if first.strand == "+" else 16)
             placed.add("same_coords")
     if "odd_chroms" in parts and "chrU" not in w.chroms:
         # a sequence with reads but without annotation, one with annotation but without reads, one with neither
